@@ -88,6 +88,30 @@ def check_random_dense(run, ex, jnp, rng):
                 run.violation({"kind": "bilinearity", "term": term, "D": D, "N": N}, {"err": maxabs(lhs - rhs)})
 
 
+def check_scaling(run, ex, jnp, rng):
+    """Dimensional analysis of the documented operators: on the box of extent s L every derivative carries 1/s, so the convection terms scale
+    like 1/s, the gradient norm like 1/s^2, the rotational 3D term like 1/s and the 2D vorticity convection (velocity = curl of the inverse
+    Laplacian) not at all - for domain extents over ten decades, on dense states."""
+    nf = ex.nonlin_fun
+    for D, N in ((1, 16), (2, 8), (2, 9), (3, 6)):
+        builders = [("conv_mc", 1, D, lambda dop: nf.ConvectionNonlinearFun(D, N, derivative_operator=dop, dealiasing_fraction=2 / 3, scale=1.3)),
+                    ("conv_sc_cons", 1, 1, lambda dop: nf.ConvectionNonlinearFun(D, N, derivative_operator=dop, dealiasing_fraction=2 / 3, scale=0.7, single_channel=True, conservative=True)),
+                    ("gradnorm", 2, 1, lambda dop: nf.GradientNormNonlinearFun(D, N, derivative_operator=dop, dealiasing_fraction=2 / 3, scale=1.1))]
+        if D == 2:
+            builders.append(("vort2d", 0, 1, lambda dop: nf.VorticityConvection2d(D, N, convection_scale=0.9, derivative_operator=dop, dealiasing_fraction=2 / 3)))
+        if D == 3:
+            builders.append(("rot3d", 1, 3, lambda dop: nf.ProjectedConvection3d(D, N, derivative_operator=dop, dealiasing_fraction=2 / 3)))
+        for term, p, C, mk in builders:
+            uh = ex.fft(jnp.asarray(rng.standard_normal((C,) + (N,) * D)))
+            L0 = 2.0
+            ref = np.asarray(mk(ex.spectral.build_derivative_operator(D, L0, N))(uh))
+            for s_ in (1e5, 3e3, 1e-4):
+                got = np.asarray(mk(ex.spectral.build_derivative_operator(D, s_ * L0, N))(uh)) * s_ ** p
+                run.case(("scaling", term, D, N, s_))
+                if not np.all(np.isfinite(got)) or maxabs(got - ref) > 1e-9 * (1 + maxabs(ref)):
+                    run.violation({"kind": "scaling", "term": term, "D": D, "N": N}, {"extent_factor": s_, "err_rel": maxabs(got - ref) / (1 + maxabs(ref))})
+
+
 def run(tier: str, seed: int) -> int:
     run_ = Run(PID, tier, seed)
     jax = setup_jax(True)
@@ -100,6 +124,7 @@ def run(tier: str, seed: int) -> int:
         replay_states(run_, res, ex, jnp, jax, half=half)
         tlc.cleanup(res)
     check_random_dense(run_, ex, jnp, rng)
+    check_scaling(run_, ex, jnp, rng)
     # hook events recorded by the library itself (this process and the repository's own tests run with EXPONAX_VERIF=1), validated by
     # TLC against spec/Trace_Hooks.tla: Dealias
     from .. import hooktrace as _ht
